@@ -240,9 +240,14 @@ pub fn pygen(out_path: &str, tier: Tier, seed: u64) -> i32 {
         } else {
             let mut e = Value::Null;
             with_kit!(sc.problem.spec, K, kit => {
-                if let Ok((_, res)) = exec::<K>(&kit, &sc) {
+                if let Ok((d, res)) = exec::<K>(&kit, &sc) {
                     match &res {
-                        Res::Path(_) | Res::Err(ErrKind::InvalidStartState) | Res::Err(ErrKind::NoSolutionFound) => e = res_json(&res),
+                        Res::Path(_) | Res::Err(ErrKind::InvalidStartState) | Res::Err(ErrKind::NoSolutionFound) => {
+                            e = res_json(&res);
+                            // the number of validity queries is part of the observable behaviour:
+                            // it changes when a parameter or a space setting is lost on the way
+                            e["validity_calls"] = json!(d.log.borrow().n_valid);
+                        }
                         _ => {}
                     }
                 }
@@ -450,6 +455,12 @@ pub fn pyverify(prop: &str, scen_path: &str, res_path: &str, tier: Tier, seed: u
                     match &path {
                         Some(p) => {
                             b.count("paths_compared_bitwise", 1);
+                            if let (Some(ec), Some(pc)) = (expected["validity_calls"].as_u64(), res["validity_calls"].as_u64()) {
+                                b.count("validity_call_counts_compared", 1);
+                                if ec != pc {
+                                    ctx.violate(&format!("python-validity-call-count-differs:{pname}"), format!("the core asked the checker {ec} times, the Python planner {pc} times for the same seeded problem"), replay(json!(null)));
+                                }
+                            }
                             if ep.len() >= 3 {
                                 b.distinct.insert(crate::props::paths::hash_path(&ep));
                             }
@@ -610,7 +621,7 @@ pub fn pyverify(prop: &str, scen_path: &str, res_path: &str, tier: Tier, seed: u
                 ctx.require(&format!("python_result[{}][path]", p.name()));
             }
         }
-        for k in ["paths_compared_bitwise", "errors_compared", "prm_paths_checked", "wrapper_values_compared", "wrapper_ctor[ok]", "wrapper_ctor[ValueError]"] {
+        for k in ["validity_call_counts_compared", "paths_compared_bitwise", "errors_compared", "prm_paths_checked", "wrapper_values_compared", "wrapper_ctor[ok]", "wrapper_ctor[ValueError]"] {
             ctx.require(k);
         }
         for w in crate::spec::ALL_WRAPS {
